@@ -1,4 +1,4 @@
 SPECIFICATION Spec
-CONSTANT Double = FALSE
+CONSTANT Double = TRUE
 INVARIANTS BaseSat Emit
 CHECK_DEADLOCK FALSE
